@@ -99,7 +99,7 @@ def run(ctx):
     ctx.tlc_mc("net", "MCReassembly", "MCReassembly2.cfg", workers=2, required_actions=["Start", "Feed", "Deliver"])
 
     # 2. M3 on both stacks
-    exh, long_, rounds = (9, 3, 3) if ctx.thorough else (7, 1, 1)
+    exh, long_, rounds = (9, 3, 5) if ctx.thorough else (7, 0, 1)
     tr = ctx.path("trace.ndjson")
     notes = ctx.path("notes.ndjson")
     ctx.run_bin(binary, ["reassembly-trace", "--seed", ctx.seed, "--exh", exh, "--long", long_, "--rounds", rounds, "--big", 1,
@@ -153,9 +153,10 @@ def run(ctx):
         rows = [dict(e) for e in ev]
         rows[j]["left"] += 1
         variant("wrong-left in seg event %d" % (j + 1), rows, expect_at=j)
-        rows = [dict(e) for e in ev]
-        rows[i]["out"] = rows[i]["out"][:-1]
-        variant("late delivery in seg event %d" % (i + 1), rows, expect_at=i)
+        if ctx.thorough:
+            rows = [dict(e) for e in ev]
+            rows[i]["out"] = rows[i]["out"][:-1]
+            variant("late delivery in seg event %d" % (i + 1), rows, expect_at=i)
 
     return ctx.finish(
         rule="MC: Reassembly.tla over all streams of 3 messages of length <= 4 (2 channels x 2 messages), all cut sets and "
